@@ -55,6 +55,9 @@ def run(chk, tier):
     import zone as _zone
     nco = _zone.run_compact(chk, P, units=('memattrs.c', 'topology.c', 'cpukinds.c', 'distances.c'))
     chk.floor("R-COMPACT", "element moves inside one array", nco, 1)
+    import elemmove
+    nem = elemmove.run(chk, P, list(P.units))
+    chk.floor("R-COMPACT", "field-wise element moves in compacting functions", nem, 1)
     chk.rule("R-UNLINK", "removing a distances matrix from the topology's doubly linked list updates the predecessor or the head AND the successor or the tail (all discovered removal sites)")
     nu = lists.list_unlink(chk, P, [], "distances.c")
     chk.floor("R-UNLINK", "removal sites of the distances list", nu, 1)
